@@ -500,6 +500,107 @@ func (c *checker) interrupted(p *pairCtx) {
 	}
 }
 
+// concurrent: several BuildList calls at the same time on ONE Resolver with cold caches.
+func (c *checker) concurrent(p *pairCtx) {
+	t, ref := p.t, p.ref
+	const sig = "C10:concurrent-resolutions-on-shared-resolver"
+	var nodes []mvsfake.Req
+	for m := range ref.Reach {
+		nodes = append(nodes, m)
+	}
+	sort.Slice(nodes, func(i, j int) bool { return nodes[i].String() < nodes[j].String() })
+	type result struct {
+		bl  map[string]string
+		err error
+	}
+	start := func(res *mvs.Resolver, roots []mvsfake.Req, ch chan result) {
+		go func() {
+			bl, err := mvs.BuildList(c.ctx, config(roots, false, false), res)
+			ch <- result{bl, err}
+		}()
+	}
+	judge := func(pp *pairCtx, what string, r result) {
+		t.Add("evaluations", 1)
+		if r.err != nil {
+			t.Violation(sig, pp.size, fmt.Sprintf("[%s] roots %v, %s: BuildList failed: %v", pp.f.Name, pp.rootStr(), what, r.err), pp.mk(what, r.err.Error()))
+			return
+		}
+		got := map[string]string{}
+		for k, v := range r.bl {
+			if k != "" {
+				got[k] = v
+			}
+		}
+		if kind, detail := diff(got, pp.ref.List); kind != "" {
+			t.Violation(sig, pp.size, fmt.Sprintf("[%s] roots %v, %s: %s (%s); got %s", pp.f.Name, pp.rootStr(), what, detail, kind, mvsfake.FormatList(got)), pp.mk(what, mvsfake.FormatList(got)))
+		}
+	}
+	for _, m := range nodes {
+		for variant := 0; variant < 2; variant++ {
+			p2 := *p
+			if variant == 1 {
+				p2.roots = []mvsfake.Req{m}
+				p2.ref = p.w.RefBuildList(p2.roots)
+			}
+			cacheDir := c.freshDir("cache-conc")
+			wp := mvsfake.Build(p.u)
+			h := &mvsfake.Hooks{DieAfterFiles: -1, ParkAfterFiles: 0, ParkKey: wp.FetchKey(m), Parked: make(chan struct{}, 1), Release: make(chan struct{})}
+			wp.SetHooks(h)
+			shared := mvs.NewResolver(cacheDir, wp.Dialer(), nil)
+			first := make(chan result, 1)
+			start(shared, p.roots, first)
+			select {
+			case <-h.Parked:
+			case r := <-first:
+				vlib.Fatalf("resolution of %v finished without downloading the reachable %v (err %v)", p.roots, m, r.err)
+			case <-time.After(10 * time.Second):
+				t.Violation("C10:hang", p.size, fmt.Sprintf("BuildList did not reach the download of %v within 10s, roots %v", m, p.rootStr()), p.mk("first of two concurrent resolutions", "no result"))
+				close(h.Release)
+				continue
+			}
+			t.Add("forced-concurrent-resolutions", 1)
+			what := fmt.Sprintf("second resolution on the same resolver while the first one (roots %v) is inside the download of %s", p.rootStr(), m)
+			second := make(chan result, 1)
+			start(shared, p2.roots, second)
+			select {
+			case r := <-second:
+				judge(&p2, what, r)
+			case <-time.After(10 * time.Second):
+				t.Violation("C10:hang", p.size, what+": no result within 10s", p2.mk(what, "no result"))
+			}
+			close(h.Release)
+			select {
+			case r := <-first:
+				judge(p, fmt.Sprintf("first resolution, parked inside the download of %s while a second one ran on the same resolver", m), r)
+			case <-time.After(10 * time.Second):
+				t.Violation("C10:hang", p.size, "a released resolution did not finish within 10s", p.mk(what, "no result"))
+			}
+		}
+	}
+	// free-running
+	for round := 0; round < 3; round++ {
+		shared := mvs.NewResolver(c.freshDir("cache-conc"), p.w.Dialer(), nil)
+		ch := make(chan result, 4)
+		for i := 0; i < 4; i++ {
+			start(shared, p.roots, ch)
+		}
+		t.Add("free-concurrent-rounds", 1)
+		for i := 0; i < 4; i++ {
+			select {
+			case r := <-ch:
+				judge(p, fmt.Sprintf("one of 4 free-running concurrent resolutions on one cold resolver (round %d)", round+1), r)
+			case <-time.After(10 * time.Second):
+				t.Violation("C10:hang", p.size, "concurrent resolutions did not finish within 10s", p.mk("free-running", "no result"))
+				return
+			}
+		}
+	}
+}
+
+func vo1c() mvsfake.ProjectDef {
+	return mvsfake.ProjectDef{Dir: "c", Versions: []string{"v1.9.10", "v1.10.0"}}
+}
+
 func main() {
 	flag.Parse()
 	if *fChild != "" {
@@ -525,30 +626,48 @@ func main() {
 		dupRoots    bool // also root sets that name one project several times
 		interrupted bool // the interrupted-fetch family: crash points and parked downloads
 		custom      *customFam
+		concurrent  bool // concurrent resolutions on one shared Resolver (forced by parking a download, and free-running)
 	}
 	var fams []famT
 	if !r.Thorough() {
 		fams = []famT{
-			{&mvsfake.Family{Name: "2x2+1", Addr: "example.com", Projects: []mvsfake.ProjectDef{pa, pb, one("c", "v1.0.0")}}, true, false, nil},
-			{&mvsfake.Family{Name: "2x2-split-repos", Addr: "example.com", Split: true, Projects: []mvsfake.ProjectDef{pa, pb}}, true, false, nil},
-			{&mvsfake.Family{Name: "majors a,c,c@v2", Addr: "example.com", Projects: []mvsfake.ProjectDef{pa, one("c", "v1.0.0"), one("c", "v2.0.0")}}, true, false, nil},
-			{&mvsfake.Family{Name: "majors-split", Addr: "example.com", Split: true, Projects: []mvsfake.ProjectDef{pa, one("c", "v1.0.0"), one("c", "v2.0.0")}}, true, false, nil},
-			{&mvsfake.Family{Name: "interrupted fetch: 2x2, one repository per project, stale .dawnconfig", Addr: "example.com", Split: true, Stale: true, Projects: []mvsfake.ProjectDef{pa, pb}}, false, true, nil},
+			{&mvsfake.Family{Name: "2x2+1", Addr: "example.com", Projects: []mvsfake.ProjectDef{pa, pb, one("c", "v1.0.0")}}, true, false, nil, false},
+			{&mvsfake.Family{Name: "2x2-split-repos", Addr: "example.com", Split: true, Projects: []mvsfake.ProjectDef{pa, pb}}, true, false, nil, false},
+			{&mvsfake.Family{Name: "majors a,c,c@v2", Addr: "example.com", Projects: []mvsfake.ProjectDef{pa, one("c", "v1.0.0"), one("c", "v2.0.0")}}, true, false, nil, false},
+			{&mvsfake.Family{Name: "majors-split", Addr: "example.com", Split: true, Projects: []mvsfake.ProjectDef{pa, one("c", "v1.0.0"), one("c", "v2.0.0")}}, true, false, nil, false},
+			{&mvsfake.Family{Name: "interrupted fetch: 2x2, one repository per project, stale .dawnconfig", Addr: "example.com", Split: true, Stale: true, Projects: []mvsfake.ProjectDef{pa, pb}}, false, true, nil, false},
 		}
 	} else {
 		fams = []famT{
-			{&mvsfake.Family{Name: "3x2", Addr: "example.com", Projects: []mvsfake.ProjectDef{pa, pb, two("c", "v0.9.0", "v1.0.0")}}, false, false, nil},
-			{&mvsfake.Family{Name: "majors a(2),b,c,c@v2", Addr: "example.com", Projects: []mvsfake.ProjectDef{pa, one("b", "v1.0.0"), one("c", "v1.0.0"), one("c", "v2.0.0")}}, false, false, nil},
-			{&mvsfake.Family{Name: "2x2+1-split-repos", Addr: "example.com", Split: true, Projects: []mvsfake.ProjectDef{pa, pb, one("c", "v1.0.0")}}, true, false, nil},
-			{&mvsfake.Family{Name: "majors c(2),c@v2(2),a", Addr: "github.com/o/r", Projects: []mvsfake.ProjectDef{two("c", "v1.0.0", "v1.1.0"), two("c", "v2.0.0", "v2.1.0"), one("a", "v0.1.0")}}, true, false, nil},
+			{&mvsfake.Family{Name: "3x2", Addr: "example.com", Projects: []mvsfake.ProjectDef{pa, pb, two("c", "v0.9.0", "v1.0.0")}}, false, false, nil, false},
+			{&mvsfake.Family{Name: "majors a(2),b,c,c@v2", Addr: "example.com", Projects: []mvsfake.ProjectDef{pa, one("b", "v1.0.0"), one("c", "v1.0.0"), one("c", "v2.0.0")}}, false, false, nil, false},
+			{&mvsfake.Family{Name: "2x2+1-split-repos", Addr: "example.com", Split: true, Projects: []mvsfake.ProjectDef{pa, pb, one("c", "v1.0.0")}}, true, false, nil, false},
+			{&mvsfake.Family{Name: "majors c(2),c@v2(2),a", Addr: "github.com/o/r", Projects: []mvsfake.ProjectDef{two("c", "v1.0.0", "v1.1.0"), two("c", "v2.0.0", "v2.1.0"), one("a", "v0.1.0")}}, true, false, nil, false},
 			{&mvsfake.Family{Name: "2x3", Addr: "example.com", Projects: []mvsfake.ProjectDef{
 				{Dir: "a", Versions: []string{"v1.2.0", "v1.10.0", "v1.10.1"}},
-				{Dir: "b", Versions: []string{"v0.9.0", "v1.0.0-rc.1", "v1.0.0"}}}}, true, false, nil},
-			{&mvsfake.Family{Name: "interrupted fetch: 2x2, one repository per project, stale .dawnconfig", Addr: "example.com", Split: true, Stale: true, Projects: []mvsfake.ProjectDef{pa, pb}}, false, true, nil},
-			{&mvsfake.Family{Name: "interrupted fetch: a(2),c,c@v2, one repository per directory, stale .dawnconfig", Addr: "example.com", Split: true, Stale: true, Projects: []mvsfake.ProjectDef{pa, one("c", "v1.0.0"), one("c", "v2.0.0")}}, false, true, nil},
+				{Dir: "b", Versions: []string{"v0.9.0", "v1.0.0-rc.1", "v1.0.0"}}}}, true, false, nil, false},
+			{&mvsfake.Family{Name: "interrupted fetch: 2x2, one repository per project, stale .dawnconfig", Addr: "example.com", Split: true, Stale: true, Projects: []mvsfake.ProjectDef{pa, pb}}, false, true, nil, false},
+			{&mvsfake.Family{Name: "interrupted fetch: a(2),c,c@v2, one repository per directory, stale .dawnconfig", Addr: "example.com", Split: true, Stale: true, Projects: []mvsfake.ProjectDef{pa, one("c", "v1.0.0"), one("c", "v2.0.0")}}, false, true, nil, false},
 		}
 	}
-	fams = append(fams, famT{&mvsfake.Family{Name: "monorepo on a well-known host, tagged versions and pseudo-versions of untagged revisions"}, false, false, pseudoFamily()})
+	// version order: equal string length but different digit layout, multi-digit components,
+	// numeric pre-release identifiers, a two-digit major
+	vo1, vo2 := two("a", "v1.9.10", "v1.10.0"), two("b", "v1.2.10", "v1.10.2")
+	fams = append(fams,
+		famT{Family: &mvsfake.Family{Name: "version order: a(v1.9.10 v1.10.0), b(v1.2.10 v1.10.2)", Addr: "example.com", Projects: []mvsfake.ProjectDef{vo1, vo2}}, dupRoots: true},
+		famT{Family: &mvsfake.Family{Name: "version order: p(v1.0.0-9.aa v1.0.0-10.a), q@v10(v10.9.10 v10.10.0)", Addr: "example.com",
+			Projects: []mvsfake.ProjectDef{two("p", "v1.0.0-9.aa", "v1.0.0-10.a"), two("q", "v10.9.10", "v10.10.0")}}, dupRoots: true},
+		famT{Family: &mvsfake.Family{Name: "version order: diamond and chain a, b, c(v1.9.10 v1.10.0)", Addr: "example.com",
+			Projects: []mvsfake.ProjectDef{one("a", "v1.0.0"), one("b", "v1.0.0"), vo1c()}}, dupRoots: true},
+		famT{Family: &mvsfake.Family{Name: "concurrent resolutions on one shared resolver: 2x2", Addr: "example.com", Projects: []mvsfake.ProjectDef{vo1, pb}}, concurrent: true},
+		famT{Family: &mvsfake.Family{Name: "concurrent resolutions on one shared resolver: 2x2, one repository per project", Addr: "example.com", Split: true, Projects: []mvsfake.ProjectDef{pa, vo2}}, concurrent: true})
+	if r.Thorough() {
+		fams = append(fams,
+			famT{Family: &mvsfake.Family{Name: "version order: 2x3 a(v1.9.10 v1.10.0 v1.10.9), b(v1.0.0-rc.9 v1.0.0-rc.10 v1.0.0)", Addr: "example.com", Projects: []mvsfake.ProjectDef{
+				{Dir: "a", Versions: []string{"v1.9.10", "v1.10.0", "v1.10.9"}}, {Dir: "b", Versions: []string{"v1.0.0-rc.9", "v1.0.0-rc.10", "v1.0.0"}}}}, dupRoots: true},
+			famT{Family: &mvsfake.Family{Name: "concurrent resolutions on one shared resolver: a(2), c, c@v2", Addr: "example.com", Projects: []mvsfake.ProjectDef{vo1, one("c", "v1.0.0"), one("c", "v2.0.0")}}, concurrent: true})
+	}
+	fams = append(fams, famT{&mvsfake.Family{Name: "monorepo on a well-known host, tagged versions and pseudo-versions of untagged revisions"}, false, false, pseudoFamily(), false})
 	fcount := func(f famT) int64 {
 		if f.custom != nil {
 			return f.custom.count
@@ -567,6 +686,9 @@ func main() {
 		chunk := int64(400)
 		if f.interrupted {
 			chunk = 2 // every crash point is a child process
+		}
+		if f.concurrent {
+			chunk = 4
 		}
 		var l []item
 		for lo := int64(0); lo < fcount(f); lo += chunk {
@@ -667,6 +789,8 @@ func main() {
 				p := &pairCtx{f: f.Family, ui: ui, u: u, w: w, roots: roots, ref: ref, t: t, size: 10*u.Edges() + len(roots)}
 				if f.interrupted {
 					c.interrupted(p)
+				} else if f.concurrent {
+					c.concurrent(p)
 				} else {
 					c.pair(p, &wr)
 				}
@@ -684,7 +808,7 @@ func main() {
 	total := int64(0)
 	for i, f := range fams {
 		bounds[f.Name] = map[string]any{"projects": f.Projects, "universes": fcount(f), "root_sets": len(rootSets[i]), "one_repo_per_project": f.Split,
-			"root_sets_naming_a_project_twice": f.dupRoots, "crash_points_and_parked_downloads": f.interrupted}
+			"root_sets_naming_a_project_twice": f.dupRoots, "crash_points_and_parked_downloads": f.interrupted, "concurrent_resolutions_on_a_shared_resolver": f.concurrent}
 		if f.custom != nil {
 			bounds[f.Name].(map[string]any)["projects"] = f.custom.desc
 		}
@@ -694,6 +818,8 @@ func main() {
 	r.Extra["universes_total"] = total
 	r.Extra["pairs_represented"] = r.Get("pairs-represented")
 	r.Extra["skipped_after_hang"] = r.Get("skipped-after-hang")
+	r.Extra["forced_concurrent_resolutions"] = r.Get("forced-concurrent-resolutions")
+	r.Extra["free_running_concurrent_rounds"] = r.Get("free-concurrent-rounds")
 	r.Extra["crash_points"] = r.Get("crash-points")
 	r.Extra["parked_download_interleavings"] = r.Get("interleavings")
 	r.Extra["pairs_with_a_project_named_twice"] = r.Get("pairs-with-a-project-named-twice")
@@ -704,6 +830,7 @@ func main() {
 		"the repository is an in-memory vcs.Repository (linear history, tags <dir>/<version>, one dawn.toml per project directory) served through the real Resolver, real cache directory on tmpfs and real dawn.toml parser",
 		"a root set may name one project under two or three requirement names at different versions; the reference takes the maximum; such a pair is resolved 8 times (map insertion order alternated) because the order in which Go iterates the requirement map is random",
 		"crash model of the interrupted-fetch family: process death (os.Exit in a child process that shares the cache directory and the temp directory) at every point between two file writes of a checkout; files written so far persist, nothing deferred runs, no file is torn. A checkout writes a stale legacy .dawnconfig (different requirements) first, then dawn.toml, then BUILD.dawn and src/lib.txt. After the death a fresh Resolver in the parent must compute the reference build list. Interleaving model: one download parked between two file writes while a second Resolver on the same cache directory resolves",
+		"concurrent resolutions: a BuildList on a cold shared Resolver is parked inside the download of one reachable project version (every reachable version in turn) while a second BuildList runs on the SAME Resolver (same roots; and roots = just that version); both must equal their reference. Plus 3 free-running rounds per pair of 4 concurrent BuildLists on one cold shared Resolver",
 		"hang = no result within 10 s (normal cost < 1 ms)",
 	}
 	r.Finish(vlib.Coverage{
@@ -712,7 +839,7 @@ func main() {
 		Rule:               "every universe of each family (all requirement functions: each (project,version) requires none or exactly one version of each other project) x every root set with <=1 version per project, plus root sets naming one project 2-3 times at different versions, reduced to pairs whose unreachable nodes have no requirements; 5 resolutions per pair (cold, same resolver, new resolver on warm cache dir, renamed root requirement names, reversed declaration/tag order on a second cold cache), 8 when a project is named twice; interrupted-fetch family: per pair x reachable project version x k, one real process death after k files and one parked download; non-trivial = reference build list selects >= 2 projects",
 		States:             r.Get("pairs"),
 		Transitions:        r.Get("evaluations"),
-		TracesValidated:    r.Get("crash-points") + r.Get("interleavings"),
+		TracesValidated:    r.Get("crash-points") + r.Get("interleavings") + r.Get("forced-concurrent-resolutions"),
 		Exhaustive:         true,
 		Outcomes:           r.NumOutcomes("classes") + r.NumOutcomes("crash-classes"),
 		Bounds:             bounds,
